@@ -66,7 +66,12 @@ def run(tier, seed):
     rep = nv.Report(PROP, tier, seed, "model_checking")
     nv.build_harness(["nv-typing"])
     d = nv.scratch("c02")
-    res, cases, results = tc.gen_and_run(tier, d)
+    try:
+        res, cases, results = tc.gen_and_run(tier, d)
+    except tc.SetupRejected as ex:
+        rep.violation({"kind": "catalogue-definition-rejected", "statement": ex.info["statement"], "outcome": ex.info["outcome"],
+                       "error": ex.info["kind"], "message": ex.info["msg"][:300]})
+        return rep.finish()
     if res.violated:
         rep.violation({"kind": "spec-property", "property": res.violated})
         return rep.finish()
